@@ -4,7 +4,7 @@ import ComposeVerif.Model.C11Defaults
 
 `Normalize` = `normalizeNetworks` ; per-service loop ; `setNameFromKey`.  Every unchecked type
 assertion of the Go code is a conjunct of one of the three *shape* predicates below; when one
-fails the outcome is `err <function>` (a panic before the C01 repairs of round 2) (the functions run one after the other, and all
+fails the outcome is `panic <function>` (the functions run one after the other, and all
 assertions of one function report the same site, so the outcome does not depend on Go's map
 order).  When all hold the result is the pure function `normalizePure`.
 
@@ -233,7 +233,8 @@ def containerPrefix : String := "container:"
 def linkDeps (links : List Val) : List (String × Val) :=
   links.map fun l => (linkTarget (strOf l), depEntry true)
 
-/-- the dependency a `service:<name>` namespace reference stands for -/
+/-- the dependency a `service:<name>` namespace reference stands for (`ref, _ := n.(string)`: a value that
+is not a string — e.g. the `null` of an empty `pid:` — reads as the empty string and stands for none) -/
 def nsDep (s : KVs) (ns : String) : Option (String × Val) :=
   match lookup ns s with
   | some (.str ref) => if hasPrefix servicePrefix ref then some (dropPrefix servicePrefix ref, depEntry true) else none
@@ -308,12 +309,6 @@ def shapeVolume : Val → Bool
     | _ => false
   | _ => false
 
-def shapeNamespace (s : KVs) (ns : String) : Bool :=
-  match lookup ns s with
-  | none => true
-  | some (.str _) => true
-  | some _ => true      -- `ref, _ := n.(string)`: since the repair of the empty-`pid:` panic any kind is tolerated (no dependency)
-
 def shapeService : Val → Bool
   | .map s =>
     (match lookup "build" s with
@@ -328,7 +323,6 @@ def shapeService : Val → Bool
      | none => true
      | some (.seq l) => l.all isStr
      | some _ => false) &&
-    namespaces.all (shapeNamespace s) &&
     (match lookup "volumes" s with
      | none => true
      | some (.seq l) => l.all shapeVolume
@@ -397,9 +391,9 @@ def normalizePure (clean : String → String) (env : Env) (d : KVs) : KVs :=
   setNames (normServices clean env (normNetworks d))
 
 def normalize (clean : String → String) (env : Env) (d : KVs) : Out KVs :=
-  if !shapeNN d then .err "normalizeNetworks"
-  else if !shapeServices d then .err "Normalize"
-  else if !shapeNames d then .err "setNameFromKey"
+  if !shapeNN d then .panic "loader.normalizeNetworks"
+  else if !shapeServices d then .panic "loader.Normalize"
+  else if !shapeNames d then .panic "loader.setNameFromKey"
   else .ok (normalizePure clean env d)
 
 end CV.C11
